@@ -21,8 +21,24 @@ U3V stream layout (offset, width in bytes):
   payload_type        0x0001 image | 0x4001 image extended chunk | 0x4000 chunk
   status              0x0000 success | 0xA100 data discarded | 0xA101 data overrun
 
-  chunk data (GenICam GenCP/GenTL chunk layout, decoded from the END of the valid payload):
-                      [ data (n bytes) | chunk id (4, big endian) | n (4, big endian) ]*
+  chunk data (GenICam chunk layout, decoded from the END of the valid payload):
+                      [ data (n bytes) | chunk id (4) | n (4) ]*
+
+  !! BYTE ORDER OF THE CHUNK LENGTH FIELD — EXPLICIT TRANSCRIPTION CHOICE, NOT INDEPENDENT !!
+  Everything above was written from the layout of the standard.  The byte order of the 4-byte
+  chunk id / chunk length fields was NOT: it was TAKEN FROM THE CODE
+  (`cameleon/src/u3v/stream_handle.rs`, `u32::from_be_bytes`), because the USB3 Vision / GenICam
+  chunk clause is not available offline and nothing else in /repo settles it (no test, no sample
+  payload, no producer of chunk data; README lists "Implement payload chunk parser" as TODO).
+  Independent recollection says LITTLE endian for U3V: USB3 Vision is little-endian throughout,
+  the GenICam reference `ChunkAdapterU3V` reads ChunkID/ChunkLength without byte swap (only
+  `ChunkAdapterGEV` uses ntohl), and aravis sets `chunk_endianness = G_LITTLE_ENDIAN` for U3V
+  streams.  If that is right, the code mis-reads every chunk length of a conforming camera
+  (n < 2^24 is read as n * 2^24 or more) and `walk_exact` / `build_accepts` / the harness oracle
+  certify the wrong layout.  They certify WHICHEVER order `chunkLengthOrder` below names; flipping
+  it is a one-line change (here and `CHUNK_LEN_ORDER` in harness/src/bin/c11.rs) after which
+  `chunkLenAt_eq` (Proofs/C11Stream.lean) stops checking and the oracle reports the code.
+  Recorded as an assumption in props/C11.json.
 -/
 import CamVerif.Prelude.Basic
 namespace CamVerif.Spec.StreamLayout
@@ -160,11 +176,33 @@ def extTrailer (b : Bytes) : Option (Nat × Nat) := do
 /-- Chunk trailer: chunk layout id. -/
 def chunkTrailerLayoutId (b : Bytes) : Option Nat := u32At b 28
 
-/-- `ChunksBack buf e ns`: the first `e` bytes of `buf` are exactly a sequence of chunks
-`[data (n) | id (4) | n (4, BE)]`, and `ns` lists their data lengths from the LAST chunk to
-the first (the layout is decodable only from the end).  `e = 0` is the empty sequence. -/
-def ChunksBack (buf : Bytes) : Nat → List Nat → Prop
+/-- Byte order of the chunk id / chunk length fields. -/
+inductive ByteOrder where
+  | big
+  | little
+  deriving Repr, DecidableEq
+
+/-- The 4-byte chunk length field at offset `i`, read in the given byte order. -/
+def chunkLenAt (order : ByteOrder) (b : Bytes) (i : Nat) : Option Nat :=
+  match order with
+  | .big => u32BEAt b i
+  | .little => u32At b i
+
+/-- **THE TRANSCRIPTION CHOICE** (see the header): the order the chunk length is specified in.
+`big` is what the code does; independent recollection of the standard says `little` for U3V. -/
+def chunkLengthOrder : ByteOrder := .big
+
+/-- `ChunksBackO order buf e ns`: the first `e` bytes of `buf` are exactly a sequence of chunks
+`[data (n) | id (4) | n (4, in byte order `order`)]`, and `ns` lists their data lengths from the
+LAST chunk to the first (the layout is decodable only from the end).  `e = 0` is the empty
+sequence. -/
+def ChunksBackO (order : ByteOrder) (buf : Bytes) : Nat → List Nat → Prop
   | e, [] => e = 0
-  | e, n :: rest => n + 8 ≤ e ∧ u32BEAt buf (e - 4) = some n ∧ ChunksBack buf (e - 8 - n) rest
+  | e, n :: rest =>
+    n + 8 ≤ e ∧ chunkLenAt order buf (e - 4) = some n ∧ ChunksBackO order buf (e - 8 - n) rest
+
+/-- The chunk layout in the transcribed byte order. -/
+abbrev ChunksBack (buf : Bytes) (e : Nat) (ns : List Nat) : Prop :=
+  ChunksBackO chunkLengthOrder buf e ns
 
 end CamVerif.Spec.StreamLayout
